@@ -373,4 +373,167 @@ func writeDecoders(b *strings.Builder, root string, files []string, parsed map[s
 		}
 		fmt.Fprintf(b, "Definition %s : dprog := {|\n  dp_init := %s;\n  dp_series := %s |}.\n", d[0], ini, ser)
 	}
+	writeProfileCols(b, root, files, parsed)
+}
+
+// ---------------------------------------------------------------------------------------------------------
+// onProfile at column level and the profile insert service (model/IngestShared.v section 4):
+//
+//	gen_on_profile_prog   parserDoer.onProfile: per field of p.profile, PApp (p.profile.F = append(p.profile.F, x): one element
+//	                      per call) or PSet (p.profile.F = x: the array of the request); pp_flush_resets: the block under
+//	                      `if p.profile.Size > ..` sends the request and calls resetProfile
+//	gen_profile_fields    the slice fields of model.ProfileData
+//	gen_profile_cols      the columns of the profile insert service in the order of toIFace, with how ProcessRequest fills them:
+//	                      KRows F (one value per element of profileSeriesData.F) or KOne F (profileSeriesData.F as ONE array value)
+func writeProfileCols(b *strings.Builder, root string, files []string, parsed map[string]*ast.File) {
+	var ops []string
+	unknown := 0
+	flush := false
+	if fd := funcOf(fileOf(root, files, parsed, "utils/unmarshal/builder.go"), "parserDoer", "onProfile"); fd != nil {
+		for _, st := range fd.Body.List {
+			switch s := st.(type) {
+			case *ast.AssignStmt:
+				if len(s.Lhs) != 1 || len(s.Rhs) != 1 {
+					unknown++
+					continue
+				}
+				l := nospace(exprString(s.Lhs[0]))
+				if !strings.HasPrefix(l, "p.profile.") {
+					unknown++
+					continue
+				}
+				f := strings.TrimPrefix(l, "p.profile.")
+				if f == "Size" {
+					continue
+				}
+				if c, ok := s.Rhs[0].(*ast.CallExpr); ok && calleeName(c.Fun) == "append" && len(c.Args) == 2 &&
+					nospace(exprString(c.Args[0])) == l && !c.Ellipsis.IsValid() {
+					ops = append(ops, "PApp "+q(f))
+				} else if _, ok := s.Rhs[0].(*ast.Ident); ok {
+					ops = append(ops, "PSet "+q(f))
+				} else {
+					unknown++
+				}
+			case *ast.IfStmt:
+				if strings.HasPrefix(nospace(exprString(s.Cond)), "p.profile.Size>") && s.Else == nil {
+					sends, resets := false, false
+					for _, x := range s.Body.List {
+						if _, ok := isSendOnRes(x); ok {
+							sends = true
+						}
+						if es, ok := x.(*ast.ExprStmt); ok {
+							if c, ok := es.X.(*ast.CallExpr); ok && calleeName(c.Fun) == "resetProfile" {
+								resets = true
+							}
+						}
+					}
+					flush = sends && resets
+				} else {
+					unknown++
+				}
+			case *ast.ReturnStmt:
+			default:
+				unknown++
+			}
+		}
+	} else {
+		unknown = -1
+	}
+	fmt.Fprintf(b, "Definition gen_on_profile_prog : profile_prog := {| pp_ops := [%s]; pp_flush_resets := %v; pp_unknown := %d |}.\n",
+		strings.Join(ops, "; "), flush, unknown)
+	pf := map[string]*ast.File{}
+	for _, p := range files {
+		pf[p] = parsed[p]
+	}
+	b.WriteString("Definition gen_profile_fields : list string := " + strList(sliceFields(pf, "ProfileData")) + ".\n")
+
+	// the profile insert service
+	svc := fileOf(root, files, parsed, "service/impl/profileInsertService.go")
+	var order []string // acquirer fields in toIFace order
+	if fd := funcOf(svc, "profileSamplesAcquirer", "toIFace"); fd != nil {
+		ast.Inspect(fd.Body, func(n ast.Node) bool {
+			if cl, ok := n.(*ast.CompositeLit); ok {
+				for _, e := range cl.Elts {
+					order = append(order, strings.TrimPrefix(nospace(exprString(e)), "t."))
+				}
+				return false
+			}
+			return true
+		})
+	}
+	fill := map[string]string{}
+	bad := 0
+	colOf := func(e ast.Expr) string { // acquirer.<col>.Data / &acquirer.<col>.Data inside anything
+		s := nospace(oneLine(e)) // go/printer: types.ExprString abbreviates composite literals
+		if i := strings.Index(s, "acquirer."); i >= 0 {
+			s = s[i+len("acquirer."):]
+			if j := strings.Index(s, ".Data"); j >= 0 {
+				return s[:j]
+			}
+		}
+		return ""
+	}
+	fieldOf := func(e ast.Expr) string {
+		s := nospace(exprString(e))
+		if strings.HasPrefix(s, "profileSeriesData.") {
+			return strings.TrimPrefix(s, "profileSeriesData.")
+		}
+		return ""
+	}
+	if svc != nil {
+		ast.Inspect(svc, func(n ast.Node) bool {
+			kv, ok := n.(*ast.KeyValueExpr)
+			if !ok || exprString(kv.Key) != "ProcessRequest" {
+				return true
+			}
+			fl, ok := kv.Value.(*ast.FuncLit)
+			if !ok {
+				return true
+			}
+			for _, st := range fl.Body.List {
+				switch s := st.(type) {
+				case *ast.ExprStmt:
+					c, ok := s.X.(*ast.CallExpr)
+					if !ok || len(c.Args) != 1 {
+						continue
+					}
+					col, f := colOf(c.Fun), fieldOf(c.Args[0])
+					if col == "" || f == "" {
+						continue
+					}
+					switch calleeName(c.Fun) {
+					case "AppendArr":
+						fill[col] += "KRows " + q(f)
+					case "Append":
+						fill[col] += "KOne " + q(f)
+					default:
+						bad++
+					}
+				case *ast.RangeStmt:
+					f := fieldOf(s.X)
+					if f == "" || len(s.Body.List) != 1 {
+						continue
+					}
+					if es, ok := s.Body.List[0].(*ast.ExprStmt); ok {
+						if c, ok := es.X.(*ast.CallExpr); ok && len(c.Args) == 1 && colOf(c.Fun) != "" && exprString(c.Args[0]) == exprString(s.Value) {
+							fill[colOf(c.Fun)] += "KRows " + q(f)
+							continue
+						}
+					}
+					bad++
+				}
+			}
+			return false
+		})
+	}
+	var cols []string
+	for _, c := range order {
+		k := fill[c]
+		if k == "" || strings.Count(k, "K") != 1 {
+			k = "KBad " + q(k)
+		}
+		cols = append(cols, "("+q(c)+", "+k+")")
+	}
+	b.WriteString("Definition gen_profile_cols : list (string * kop) := [" + strings.Join(cols, "; ") + "].\n")
+	fmt.Fprintf(b, "Definition gen_profile_cols_unknown : Z := %d.\n", bad)
 }
